@@ -454,8 +454,13 @@ func (h *history) step(i int) {
 		op = "factory/control"
 		sys := sliceOf(r, 4)
 		hdr := sliceOf(r, 10)
-		hdr[4] = 0
-		hdr[5] = byte(r.Intn(11))
+		if !r.Chance(1, 4) {
+			// mostly a defined control message; otherwise any PType/SType bytes (kept as given, reported as undefined)
+			hdr[4] = 0
+			hdr[5] = byte(r.Intn(11))
+		} else if r.Bool() {
+			hdr[5] = byte(r.Intn(11))
+		}
 		switch r.Intn(5) {
 		case 0:
 			real.Try(func() { h.add(&pooled{kind: "control", ctl: ast.NewHSMSControlMessage(hdr)}, op) })
